@@ -119,6 +119,7 @@ func decodeB64(s string) []byte {
 }
 
 const c06HostM = "mixed.sso.test"
+const c06HostR = "addr.sso.test"
 
 func c06Run(c *fw.Ctx) {
 	c.Retries = 2 // socket-based harness: tolerate a transient glitch while replaying a prefix
@@ -274,6 +275,8 @@ func c06Run(c *fw.Ctx) {
 		"- service: svcg\n  default:\n    from: " + hostB + "\n    to: {{backend:b}}\n    options:\n      allowed_groups:\n        - eng\n" +
 		// a third upstream with rules of two kinds: either one admits
 		"- service: svcm\n  default:\n    from: " + c06HostM + "\n    to: {{backend:b}}\n    options:\n      allowed_email_domains:\n        - corp.test\n      allowed_groups:\n        - eng\n"
+	// a fourth upstream that lists one address
+	yr += "- service: svcr\n  default:\n    from: " + c06HostR + "\n    to: {{backend:b}}\n    options:\n      allowed_email_addresses:\n        - bob@corp.test\n"
 	er, err := harness.NewProxyEnv(harness.ProxyOpts{YAML: yr, Backends: []string{"a", "b"}, TemplateVars: map[string]string{}})
 	if err != nil {
 		panic(explore.HarnessError{Msg: err.Error()})
@@ -283,11 +286,12 @@ func c06Run(c *fw.Ctx) {
 		email  string
 		groups []string
 	}
-	users := []c06User{{"bob@corp.test", []string{"eng"}}, {"erin@corp.test", []string{"sales"}}, {"dave@other.test", []string{"eng"}}, {"gina@other.test", nil}}
+	// (the last one's address ends in the listed address)
+	users := []c06User{{"bob@corp.test", []string{"eng"}}, {"erin@corp.test", []string{"sales"}}, {"dave@other.test", []string{"eng"}}, {"gina@other.test", nil}, {"notbob@corp.test", nil}}
 	profiles := []string{"200", "429", "503", "500", "reset", "200-not-json"}
 	fwdHeaders := []string{"", "X-Forwarded-Host", "X-Original-Host", "Forwarded"}
 	drive(c, "rules", -1, func(x *explore.Exec, owned bool) {
-		host := []string{hostA, hostB, c06HostM}[x.Choose("host", 3)]
+		host := []string{hostA, hostB, c06HostM, c06HostR}[x.Choose("host", 4)]
 		u := users[x.Choose("user", len(users))]
 		prof := profiles[x.Choose("profile-answer", len(profiles))]
 		fh := fwdHeaders[x.Choose("forwarding-header", len(fwdHeaders))]
@@ -342,8 +346,8 @@ func c06Run(c *fw.Ctx) {
 		if !owned {
 			return
 		}
-		ruleName := map[string]string{hostA: "domain-upstream", hostB: "group-upstream", c06HostM: "domain-or-group-upstream"}[host]
-		desc := map[string]interface{}{"host": host, "rule_of_that_upstream": map[string]string{hostA: "allowed_email_domains [corp.test]", hostB: "allowed_groups [eng]", c06HostM: "allowed_email_domains [corp.test] + allowed_groups [eng]"}[host], "user": u.email, "user_groups": u.groups,
+		ruleName := map[string]string{hostA: "domain-upstream", hostB: "group-upstream", c06HostM: "domain-or-group-upstream", c06HostR: "address-upstream"}[host]
+		desc := map[string]interface{}{"host": host, "rule_of_that_upstream": map[string]string{hostA: "allowed_email_domains [corp.test]", hostB: "allowed_groups [eng]", c06HostM: "allowed_email_domains [corp.test] + allowed_groups [eng]", c06HostR: "allowed_email_addresses [bob@corp.test]"}[host], "user": u.email, "user_groups": u.groups,
 			"profile_endpoint_answers": prof, "client_header": strings.Join(extra, ""), "status": resp.Status, "location": resp.Location}
 		sc := resp.Cookie(harness.CookieName)
 		sessionSet := sc != nil && sc.Value != ""
@@ -353,7 +357,7 @@ func c06Run(c *fw.Ctx) {
 		}
 		byDomain := strings.HasSuffix(u.email, "@corp.test")
 		byGroup := prof == "200" && len(u.groups) > 0 && u.groups[0] == "eng"
-		passes := map[string]bool{hostA: byDomain, hostB: byGroup, c06HostM: byDomain || byGroup}[host]
+		passes := map[string]bool{hostA: byDomain, hostB: byGroup, c06HostM: byDomain || byGroup, c06HostR: u.email == "bob@corp.test"}[host]
 		viol := func(key, what string) {
 			c.Res.Violate(fw.Violation{Property: "C06", Key: "C06/rules/" + key, What: what, Scenario: "rules", Choices: x.Choices(), Detail: desc})
 		}
